@@ -260,6 +260,12 @@ def count_errors(y: np.ndarray, home_streak_min: int,
                         is_in_home_streak = False
                         home_streak_len = 0
 
+            # A team "playing against itself" has already been counted as
+            # error above. There is no pairing of a team with itself, so
+            # there is no slot for it in the separation table `temp_1`.
+            if team_1 == team_2:
+                continue
+
             # now we need to check for the game separation difference
             idx: int = ((team_1 * (team_1 - 1) // 2) + team_2) \
                 if team_1 > team_2 \
